@@ -21,7 +21,7 @@ MANIFEST = dict(
     category='model_checking', design_ref='DESIGN.md §3 C16, §2.8',
     engine='E4-choice',
     technique='stateless deviation-bounded DFS over set-iteration-order choices inside the real wn code (AST-instrumented import) per battery item, bound to reality by byte-comparison of uninstrumented runs under different PYTHONHASHSEED values',
-    text='A battery of 164 items (every public query/navigation method on three generated databases rich in order-sensitive structure - several lowest common hypernyms at different distances, equally short paths, entry-level frames shared between senses, many non-reciprocated relations onto one target, extensions, two versions with identical ids - plus taxonomy, similarity, wn.ic.compute, res/jcn/lin, Morphy, validate, lmf.dump, wn.export in 1.0 and 1.3, scan/load) is executed under a scheduler that owns the iteration order of every set/frozenset whose element hashes depend on the hash seed: all m! orders for m <= 4, otherwise sorted/reversed/each-element-first; all schedules with at most 1 (thorough: 2) non-default choices are explored per item and every one must produce byte-identical canonical transcripts, in which list order and mapping order are kept. Each item is also run twice in one process, and the whole battery is run uninstrumented in separate processes with PYTHONHASHSEED 0..K-1 (K=4 quick, 24 thorough) whose transcripts must be identical to each other.',
+    text='A battery of about 175 items (every public query/navigation method on three generated databases rich in order-sensitive structure - several lowest common hypernyms at different distances, equally short paths, entry-level frames shared between senses, many non-reciprocated relations onto one target, extensions, two versions with identical ids - plus taxonomy, similarity, wn.ic.compute, res/jcn/lin, Morphy, validate, lmf.dump, wn.export in 1.0 and 1.3, scan/load) is executed under a scheduler that owns the iteration order of every set/frozenset whose element hashes depend on the hash seed: all m! orders for m <= 4, otherwise sorted/reversed/each-element-first; all schedules with at most 1 (thorough: 2) non-default choices are explored per item and every one must produce byte-identical canonical transcripts, in which list order and mapping order are kept. Each item is also run twice in one process; for ordered pairs (Y, X) of items, with Y ranging over the taxonomy/similarity/IC/Morphy/validate/export items (all of them in the thorough tier, a rotating sixth in the quick tier) and X over the whole battery, X is re-run after Y and must return what it returned in a fresh process (read-only calls do not change later results); and the whole battery is run uninstrumented in separate processes with PYTHONHASHSEED 0..K-1 (K=4 quick, 24 thorough) whose transcripts must be identical to each other.',
     note='Sets of integers (rowids) are not permuted: their iteration order does not depend on the hash seed. Every permutation of a small set of strings/entities is the iteration order under some seed, so a divergence found by E4 is realisable; the cross-process stage exhibits concrete seeds where it can.',
 )
 
@@ -62,7 +62,8 @@ def run(tier, seed, jobs=None):
             while pending and len(running) < 4:
                 sd = pending.pop(0)
                 out = os.path.join(tmp, f'p{sd}.json')
-                running.append((sd, out, _spawn(['plain', out], sd)))
+                nslices = K * (6 if tier == 'quick' else 1)
+                running.append((sd, out, _spawn(['plain', out, f'{(seeds.index(sd) + seed) % nslices}/{nslices}'], sd)))
             sd, out, p = running.pop(0)
             o, _ = p.communicate()
             if p.returncode != 0:
@@ -92,6 +93,16 @@ def run(tier, seed, jobs=None):
                 vcount[key] = vcount.get(key, 0) + 1
                 V.append((key, f'{name}: iterating sets in sorted order and in the interpreter\'s hash order give '
                           f'different results in the same process', {'item': name}, None))
+        # interference between different read-only calls in one process
+        pairs_run = 0
+        for sd, res in plain:
+            pr = res.pop('__pairs__', {'count': 0, 'interference': []})
+            pairs_run += pr['count']
+            for yname, xname in pr['interference']:
+                key = f'interference:{family(yname)}->{family(xname)}'
+                vcount[key] = vcount.get(key, 0) + 1
+                V.append((key, f'running {yname} first changes the result of {xname} (PYTHONHASHSEED={sd})',
+                          {'item': xname, 'after': yname, 'seed': sd}, None))
         # cross-process stage
         ref_seed, ref = plain[0]
         for sd, res in plain:
@@ -116,7 +127,7 @@ def run(tier, seed, jobs=None):
         cov = {
             'states': executions, 'transitions': sum(v['executions'] * max(1, v['points_max']) for v in explored.values()),
             'traces_validated_against_impl': executions + len(plain) * len(ref),
-            'battery_items': len(explored), 'choice_points_default_run': points, 'deviation_bound': bound,
+            'battery_items': len(explored), 'ordered_call_pairs_checked': pairs_run, 'choice_points_default_run': points, 'deviation_bound': bound,
             'items_capped': capped, 'hash_seeds': [s for s, _ in plain],
             'distinct_transcripts': len({v['outcomes'][0]['t'] for v in explored.values()}),
             'samples': [{'item': n, 'executions': v['executions'], 'choice_points': v['points_max']}
